@@ -944,6 +944,8 @@ func (c *Ctx) fldCheck(rr *core.RuleResult, f *core.Func, tracked types.Object, 
 				if isNilIdent(info, n.Results[1]) {
 					if isIdentOf(info, n.Results[0], tracked) {
 						okf(key, n.Pos(), "tracked", "returns the tracked non-empty list with a nil error")
+					} else if call, ok := ast.Unparen(n.Results[0]).(*ast.CallExpr); ok && preserving(call) {
+						okf(key, n.Pos(), "helper", "returns what a helper that only appends to the tracked list hands back")
 					} else {
 						badf(key, n.Pos(), "returns a nil error with a list other than the tracked one")
 					}
